@@ -81,7 +81,7 @@ def generate(plan) -> None:
     k["ambient_period"] = ra.choice([300.0, 900.0, 3600.0])
     k["neighbour"] = ra.random() < 0.6
     # the application saves the state now and then, as Home Assistant does (get_state pauses and resumes the engine)
-    k["snapshots"] = sorted(round(ra.choice([5.0, 40.0, 300.0, 2000.0, 20000.0, 80000.0]) * ra.uniform(0.5, 1.5), 1)
+    k["snapshots"] = sorted(round(ra.choice([2.0, 5.0, 12.0, 40.0, 300.0, 2000.0, 20000.0, 80000.0]) * ra.uniform(0.5, 1.5), 1)
                             for _ in range(ra.choice([0, 0, 1, 2, 4])))
     plan.d["ops"] = []
 
@@ -238,11 +238,17 @@ async def run(ctx) -> None:
         try:
             st = gwy.get_state()
             hub.count("snapshot_during_discovery")
+        except RuntimeError as err:
+            if "already paused" in str(err):  # a restore is under way: the snapshot is refused, by design
+                ctx.probe("snapshot_refused_during_a_restore")
+                return
+            ctx.violate("C12", "snapshot_raised", exc_sig(err), f"get_state() during discovery raised {type(err).__name__}: {err}")
+            return
         except Exception as err:  # noqa
             ctx.violate("C12", "snapshot_raised", exc_sig(err), f"get_state() during discovery raised {type(err).__name__}: {err}")
             return
         n_snap[0] += 1
-        d = plan.decide(f"restore_after_snapshot/{n_snap[0]}", lambda rr: ["yes", rr.choice([2.0, 8.0, 30.0])] if rr.random() < 0.5 else ["no"], ["no"])
+        d = plan.decide(f"restore_after_snapshot/{n_snap[0]}", lambda rr: ["yes", rr.choice([2.0, 8.0, 30.0])] if rr.random() < 0.7 else ["no"], ["no"])
         if d[0] == "yes" and st[1]:
             loop.create_task(restore(st[1], d[1]))
 
